@@ -143,6 +143,16 @@ Theorem C03_compiled_query_restores :
 Proof. exact compiled_query_restores. Qed.
 Print Assumptions C03_compiled_query_restores.
 
+(* evaluate_bounded (a consumer that leaves its loop after k answers because the projection
+   function raises, or because the query ends / raises under the lowered recursion limit d, and
+   closes the query in its finally): every variable is restored when it returns *)
+Theorem C03_bounded_consumer_restores :
+  forall (ir : ir_program) (facts : str -> nat -> list fact) (user : str -> list term -> option (code lx fr callp * fr))
+         n d k h name args nx hf ys,
+  bounded_m ir facts user n d k h name args nx = Some (hf, ys) -> hf = h.
+Proof. exact bounded_restores. Qed.
+Print Assumptions C03_bounded_consumer_restores.
+
 (* machine_refines_irsem: "the bindings visible at each answer are exactly that answer's".
    The small-step machine with destructive bindings and the big-step semantics of C01/C05/C06
    (Sem.Machine.query: lists of persistent answer stores) are the same object: for every compiled
